@@ -91,7 +91,9 @@ var ObjTypes = map[string]reflect.Type{
 }
 var UnionTypes = map[string]reflect.Type{"U1": reflect.TypeOf(U1{}), "U2": reflect.TypeOf(U2{})}
 var UnionMembers = map[string][]string{"U1": {"O1", "O2"}, "U2": {"O2", "O3", "O4"}}
-var ArgTypes = map[string]reflect.Type{"A": reflect.TypeOf(ArgsA{}), "B": reflect.TypeOf(ArgsB{})}
+type ArgsC struct{ N *int64 }
+
+var ArgTypes = map[string]reflect.Type{"A": reflect.TypeOf(ArgsA{}), "B": reflect.TypeOf(ArgsB{}), "C": reflect.TypeOf(ArgsC{})}
 
 func sp(s string) *string { return &s }
 
